@@ -99,10 +99,60 @@ impl<S: BuildHasher + Clone + 'static + Send> AsyncLFUPolicy<S> {
     }
 }
 
+#[cfg(transparencies_stretto_verif)]
+impl<S: BuildHasher + Clone + 'static + Send> AsyncLFUPolicy<S> {
+    /// `with_hasher` without spawning the worker.
+    pub(crate) fn verif_with_hasher_parked(
+        ctrs: usize,
+        max_cost: i64,
+        hasher: S,
+    ) -> Result<(Self, PolicyProcessor<S>), CacheError> {
+        let inner = PolicyInner::with_hasher(ctrs, max_cost, hasher)?;
+
+        let (items_tx, items_rx) = unbounded();
+        let (stop_tx, stop_rx) = stop_channel();
+
+        let worker = PolicyProcessor::new(inner.clone(), items_rx, stop_rx);
+
+        let this = Self {
+            inner,
+            items_tx,
+            stop_tx,
+            is_closed: AtomicBool::new(false),
+            metrics: Arc::new(Metrics::new()),
+        };
+
+        Ok((this, worker))
+    }
+}
+
+#[cfg(transparencies_stretto_verif)]
+impl<S: BuildHasher + Clone + 'static + Send> PolicyProcessor<S> {
+    pub(crate) fn verif_step(&self) -> bool {
+        match self.items_rx.try_recv() {
+            Ok(items) => {
+                self.handle_items(Ok(items));
+                true
+            }
+            Err(_) => false,
+        }
+    }
+
+    pub(crate) fn verif_pending(&self) -> usize {
+        self.items_rx.len()
+    }
+
+    pub(crate) fn verif_try_stop(&self) -> bool {
+        self.stop_rx.try_recv().is_ok()
+    }
+}
+
 pub(crate) struct PolicyProcessor<S> {
     inner: Arc<Mutex<PolicyInner<S>>>,
     items_rx: Receiver<Vec<u64>>,
     stop_rx: Receiver<()>,
+    #[cfg(transparencies_stretto_verif)]
+    verif_guard: crate::verif::WorkerGuard,
 }
 
 impl<S: BuildHasher + Clone + 'static + Send> PolicyProcessor<S> {
@@ -116,6 +166,8 @@ impl<S: BuildHasher + Clone + 'static + Send> PolicyProcessor<S> {
             inner,
             items_rx,
             stop_rx,
+            #[cfg(transparencies_stretto_verif)]
+            verif_guard: crate::verif::WorkerGuard::new(),
         }
     }
 
@@ -141,6 +193,8 @@ impl<S: BuildHasher + Clone + 'static + Send> PolicyProcessor<S> {
             Ok(items) => {
                 let mut inner = self.inner.lock();
                 inner.admit.increments(items);
+                #[cfg(transparencies_stretto_verif)]
+                crate::verif::policy_batch_done();
             }
             Err(_) => {
                 // error!("policy processor error")
